@@ -498,7 +498,7 @@ func analyzeLocksIn(body *ast.BlockStmt, entry LockSet, opts *FlowOpts, visit Vi
 	// may-analysis: an unconditional `defer m.Unlock()` among the top-level statements releases m
 	// at every exit that follows it - also when the section is opened again after a temporary
 	// Unlock (Lock; defer Unlock; ...; Unlock; wait; Lock)
-	var topDefer map[string]token.Pos
+	var topDefer map[string]topDeferred
 	if opts.May {
 		hasGoto := false
 		ast.Inspect(body, func(n ast.Node) bool {
@@ -513,10 +513,10 @@ func analyzeLocksIn(body *ast.BlockStmt, entry LockSet, opts *FlowOpts, visit Vi
 				if ds, ok := st.(*ast.DeferStmt); ok {
 					if op, path := probe.lockOpOf(ds.Call); op == "Unlock" || op == "RUnlock" {
 						if topDefer == nil {
-							topDefer = map[string]token.Pos{}
+							topDefer = map[string]topDeferred{}
 						}
 						if _, dup := topDefer[path]; !dup {
-							topDefer[path] = ds.End()
+							topDefer[path] = topDeferred{ds.End(), op}
 						}
 					}
 				}
@@ -632,7 +632,13 @@ type walker struct {
 	pendingLits  map[types.Object]*ast.FuncLit
 	analysedLits map[*ast.FuncLit]bool
 	litAlias     map[*ast.FuncLit]map[string]string // literals that came out of a closure factory
-	topDefer     map[string]token.Pos               // may-analysis: mutex -> end of its unconditional top-level deferred unlock
+	topDefer     map[string]topDeferred             // may-analysis: mutex -> its unconditional top-level deferred unlock
+}
+
+// topDeferred: where an unconditional top-level deferred unlock ends and which unlock it is.
+type topDeferred struct {
+	end token.Pos
+	op  string // Unlock | RUnlock
 }
 
 func (w *walker) emit(n ast.Node, stack []ast.Node) {
@@ -1029,8 +1035,8 @@ func (w *walker) callParts(call *ast.CallExpr, stack []ast.Node, deferred bool) 
 		return
 	}
 	op, path := w.lockOpOf(call)
-	if dp, ok := w.topDefer[path]; ok && (op == "Lock" || op == "RLock") && call.Pos() > dp {
-		return // re-opened section: the pending deferred unlock releases it at every exit
+	if td, ok := w.topDefer[path]; ok && call.Pos() > td.end && (op == "Lock" && td.op == "Unlock" || op == "RLock" && td.op == "RUnlock") {
+		return // re-opened section (in the mode the pending deferred unlock releases): balanced at every exit
 	}
 	switch op {
 	case "Lock":
